@@ -60,6 +60,21 @@ theorem holm_approx_iff (p : List Rat) (th : Rat) (o o' : List Nat) (h : IsArgso
       = (correctTtestWith o p 0).map (fun x => decide (x < th)) :=
   approx_mask_eq h h' h0 h1
 
+/-- the same, gene by gene: `holmApprox p th i < th ↔ holm p i < th`. -/
+theorem holm_approx_iff_pointwise (p : List Rat) (th : Rat) (o o' : List Nat) (h : IsArgsort o p)
+    (h' : IsArgsort o' (gather (interestingIdx p th) p))
+    (h0 : ∀ x ∈ p, 0 ≤ x) (h1 : ∀ x ∈ p, x ≤ 1) (i : Nat) (hi : i < p.length) :
+    ∃ a b, (approxCorrectTtestWith o' p th)[i]? = some a ∧ (correctTtestWith o p 0)[i]? = some b ∧
+      (a < th ↔ b < th) :=
+  approx_iff_pointwise h h' h0 h1 i hi
+
+/-- Holm-corrected p-values lie between the raw p-value and 1: a gene whose corrected p is below
+the threshold also has its raw Welch p below it. -/
+theorem holm_bounds (p : List Rat) (o : List Nat) (h : IsArgsort o p) (h0 : ∀ x ∈ p, 0 ≤ x)
+    (h1 : ∀ x ∈ p, x ≤ 1) (i : Nat) (hi : i < p.length) :
+    ∃ y, (correctTtestWith o p 0)[i]? = some y ∧ p.getD i 0 ≤ y ∧ y ≤ 1 :=
+  CTM.Holm.holm_bounds h h0 h1 i hi
+
 /-- … and below the threshold the two corrections return the same number. -/
 theorem holm_approx_eq_below (p : List Rat) (th : Rat) (o o' : List Nat) (h : IsArgsort o p)
     (h' : IsArgsort o' (gather (interestingIdx p th) p)) (h0 : ∀ x ∈ p, 0 ≤ x)
@@ -213,6 +228,16 @@ theorem swap_flips (m1 m2 : List Rat) (i : Nat) (a b : Rat) (ha : m1[i]? = some 
   · simp [h, not_lt.mpr (le_of_lt h)]
 
 example : (PairStats.swap ⟨5, 7, m1, m2, [1, 0], [0, 1], p0⟩).n1 = 7 := rfl
+
+/-- the Welch statistic of `_calculate_tt_nu` is symmetric in the two clusters: same degrees of
+freedom, same t² (the sign of t flips) — the reason the raw two-sided p-value, an input of the
+model, is the same for both orders of a pair (`PairStats.swap` keeps `praw`). -/
+theorem welch_symmetric (m1 v1 : Rat) (n1 : Nat) (m2 v2 : Rat) (n2 : Nat) :
+    welchNu v1 n1 v2 n2 = welchNu v2 n2 v1 n1 ∧
+    welchTSq m1 v1 n1 m2 v2 n2 = welchTSq m2 v2 n2 m1 v1 n1 :=
+  welch_swap m1 v1 n1 m2 v2 n2
+
+example : welchNu 1 4 2 8 = some (42/5) ∧ welchTSq 3 1 4 1 2 8 = 8 := by decide +kernel
 
 /-! ### the p-value-mask route -/
 
